@@ -25,6 +25,7 @@ ASSUMPTIONS = ['all three clauses are judged for prefixes inside the territory t
                'calls) places are undefined and the unchanged library ranks a re-imported card differently, so only the log '
                'replay (in full) and the card round trip on state, heights, cards and bests are judged there',
                'the order of athletes with equal places in ranked_jumpers is deliberately not observed']
+RULE = RULE + "; plays that leave the model's territory are continued for 30 calls and judged on the log replay (in full) and on state / heights / cards / bests of the card round trip"
 
 
 def snap(c, with_trials=True):
